@@ -239,8 +239,11 @@ def pyIntDigits : List Char → Bool → Option Nat → Option Nat
       (if prevUnderscore || acc.isNone then none else pyIntDigits cs true acc)
     else none
 
+/-- the whitespace `int()` strips: TAB LF VT FF CR SPACE (not FS GS RS US, unlike `str.strip`) -/
+def isIntSpace (c : Char) : Bool := (9 ≤ c.toNat && c.toNat ≤ 13) || c.toNat == 32
+
 def pyInt (s : List Char) : Option Int :=
-  match strip s with
+  match ((s.dropWhile isIntSpace).reverse.dropWhile isIntSpace).reverse with
   | '-' :: r => (pyIntDigits r false none).map (fun n => - (n : Int))
   | '+' :: r => (pyIntDigits r false none).map (fun n => (n : Int))
   | r => (pyIntDigits r false none).map (fun n => (n : Int))
@@ -343,6 +346,19 @@ inductive PErr where
   | fuel                -- model artefact: never produced with the fuel `parse` supplies
   deriving DecidableEq, Repr
 
+/-- the `any`/`all` branch of `_parse` after the keyword; `pa` runs the `while True:` argument loop -/
+def parseCallWith (pa : List Token → Except PErr (List IR × List Token)) :
+    Bool → List Token → Except PErr (IR × List Token)
+  | _, [] => .error .malformed
+  | isAny, .lparen :: rest =>
+    match rest with
+    | .rparen :: rest2 => .ok (if isAny then .any [] else .all [], rest2)
+    | _ =>
+      match pa rest with
+      | .error e => .error e
+      | .ok (args, rest2) => .ok (if isAny then .any args else .all args, rest2)
+  | _, _ :: _ => .error .expectedLParen
+
 mutual
 /-- `_parse(ast)` over a token list: returns the expression and the unread tokens -/
 def parseE : Nat → List Token → Except PErr (IR × List Token)
@@ -359,8 +375,8 @@ def parseE : Nat → List Token → Except PErr (IR × List Token)
           | .str s :: rest3 => .ok (.equal value s, rest3)
           | _ :: _ => .error .expectedString
         | _ => .ok (.ident value, rest)
-    | .any => parseCall fuel true rest
-    | .all => parseCall fuel false rest
+    | .any => parseCallWith (fun ts => parseArgs fuel ts) true rest
+    | .all => parseCallWith (fun ts => parseArgs fuel ts) false rest
     | .not =>
       match rest with
       | [] => .error .malformed
@@ -374,17 +390,6 @@ def parseE : Nat → List Token → Except PErr (IR × List Token)
           | _ :: _ => .error .expectedRParen
       | _ :: _ => .error .expectedLParen
     | _ => .error .unhandled
-/-- the `any`/`all` branch after the keyword -/
-def parseCall : Nat → Bool → List Token → Except PErr (IR × List Token)
-  | _, _, [] => .error .malformed
-  | fuel, isAny, .lparen :: rest =>
-    match rest with
-    | .rparen :: rest2 => .ok (if isAny then .any [] else .all [], rest2)
-    | _ =>
-      match parseArgs fuel rest with
-      | .error e => .error e
-      | .ok (args, rest2) => .ok (if isAny then .any args else .all args, rest2)
-  | _, _, _ :: _ => .error .expectedLParen
 /-- the `while True:` argument loop -/
 def parseArgs : Nat → List Token → Except PErr (List IR × List Token)
   | 0, _ => .error .fuel
